@@ -2,6 +2,7 @@ package ana
 
 import (
 	"go/token"
+	"math/big"
 
 	"golang.org/x/tools/go/ssa"
 )
@@ -353,3 +354,74 @@ func LitMatches(lit *Term, patterns ...string) bool {
 }
 
 var _ = token.NoPos
+
+// evalByteLit evaluates a branch literal that is a function of one unsigned 8-bit atom alone (comparisons of integer
+// expressions over that atom and constants, combined with and / or / !) for the atom value v.
+func evalByteLit(lit *Term, isAtom func(*Term) bool, v int64) (truth, ok bool) {
+	switch lit.Op {
+	case "and", "or":
+		res := lit.Op == "and"
+		for _, a := range lit.Args {
+			t, ok := evalByteLit(a, isAtom, v)
+			if !ok {
+				return false, false
+			}
+			if lit.Op == "and" {
+				res = res && t
+			} else {
+				res = res || t
+			}
+		}
+		return res, true
+	case "un":
+		if lit.Name == "!" && len(lit.Args) == 1 {
+			t, ok := evalByteLit(lit.Args[0], isAtom, v)
+			return !t, ok
+		}
+	case "bin":
+		if !cmpOps[lit.Name] || len(lit.Args) != 2 {
+			return false, false
+		}
+		var atom *Term
+		good := true
+		findByteAtom(lit.Args[0], &atom, &good)
+		findByteAtom(lit.Args[1], &atom, &good)
+		if !good || atom == nil || !isAtom(atom) {
+			return false, false
+		}
+		if _, signed, _ := intKind(termType(atom)); signed {
+			return false, false
+		}
+		x, ok1 := evalInt(lit.Args[0], atom, big.NewInt(v))
+		y, ok2 := evalInt(lit.Args[1], atom, big.NewInt(v))
+		if !ok1 || !ok2 {
+			return false, false
+		}
+		return evalCmp(lit.Name, x, y), true
+	}
+	return false, false
+}
+
+// ByteReach decides a per-element predicate written as control flow: for every value v of the unsigned 8-bit atom
+// recognised by isAtom it returns the blocks reachable from the entry on the CFG without back edges (one generic
+// iteration of every loop) after removing each conditional edge whose literal is a function of that atom alone and is
+// false for v. Every other branch passes both ways (over-approximation). lits is the number of such literals.
+func (b *Builder) ByteReach(isAtom func(*Term) bool) (reach [256]map[*ssa.BasicBlock]bool, lits int) {
+	back := BackEdges(b.Fn)
+	ces := b.CondEdges()
+	for v := 0; v < 256; v++ {
+		removed := append([]Edge{}, back...)
+		for _, ce := range ces {
+			if t, ok := evalByteLit(ce.Lit, isAtom, int64(v)); ok {
+				if v == 0 {
+					lits++
+				}
+				if !t {
+					removed = append(removed, ce.Edge)
+				}
+			}
+		}
+		reach[v] = ReachableAvoiding(b.Fn, removed)
+	}
+	return reach, lits
+}
